@@ -370,6 +370,10 @@ fn main() {
         "stockfish-stub" => {
             cli::stockfish_stub();
         }
+        #[cfg(not(chess_verif_shuttle))]
+        "keyprobe" => {
+            println!("{}", tables::keyprobe());
+        }
         "selftest" => {
             let deep = args.iter().any(|a| a == "--deep");
             match model::self_test(deep) {
